@@ -486,7 +486,7 @@ impl Prop for C18 {
     fn run(s: &Scn, st: &mut RunStats) -> Result<(), Violation> {
         match &s.mode {
             Mode::Accounting { cfg, dispatchers, schedules, iters, sched, stats_calls, consumer_gone_after, shutdown_after_yields } => {
-                let plan = Arc::new(ExecPlan { via_analyzer: false, cfg: cfg.clone(), dispatchers: dispatchers.iter().map(|d| d.iter().map(|i| i.frame.clone()).collect()).collect(), stats_calls: *stats_calls, wait_for: Some(expected_wait(cfg, dispatchers)), consumer_gone_after: *consumer_gone_after, shutdown_after_yields: *shutdown_after_yields });
+                let plan = Arc::new(ExecPlan { via_analyzer: false, cfg: cfg.clone(), dispatchers: dispatchers.iter().map(|d| d.iter().map(|i| i.frame.clone()).collect()).collect(), stats_calls: *stats_calls, wait_for: Some(expected_wait(cfg, dispatchers)), consumer_gone_after: *consumer_gone_after, shutdown_after_yields: *shutdown_after_yields, idle_gap: None });
                 st.evals = 0;
                 let mut seen_q = false;
                 let mut seen_d = false;
